@@ -11,7 +11,7 @@ from s3transfer import processpool as pp
 
 from . import scenario, watchdog
 from .io import HookedOSUtils
-from .scenario import BUCKET, Observation, World, Xfer, scratch_root
+from .scenario import BUCKET, Observation, World, Xfer, dest_path, scratch_root
 from .fakes3 import payload
 
 
@@ -115,7 +115,7 @@ def run_legacy(spec):
         extra = dict(t.get('extra_args') or {})
         if x.kind == 'download':
             w.s3.objects[(BUCKET, x.key)] = x.data
-            path = os.path.join(obs.tmpdir, f'dst-{x.idx}')
+            path = dest_path(obs.tmpdir, x)
             labels[path] = x.label
             if t.get('preexisting'):
                 x.prev = b'previous-content-' + str(x.idx).encode()
@@ -178,11 +178,9 @@ class LoggingMonitor(pp.TransferMonitor):
         if obs is not None and transfer_id < len(obs.xfers):
             x = obs.xfers[transfer_id]
             import os as _os
-            from .scenario import TEMP_RE
+            from .scenario import temp_leftovers
 
-            d = _os.path.dirname(x.dest)
-            base = _os.path.basename(x.dest)
-            snap['temps'] = [n for n in _os.listdir(d) if n.startswith(base + '.') and TEMP_RE.search(n)]
+            snap['temps'] = temp_leftovers(x.dest)
             try:
                 with open(x.dest, 'rb') as f:
                     cur = f.read()
@@ -274,7 +272,7 @@ def run_procpool(spec):
             x.data = payload(spec.get('seed', 0) * 1000 + x.idx, t.get('size', 0))
             w.s3.labels[(BUCKET, x.key)] = x.label
             w.s3.objects[(BUCKET, x.key)] = x.data
-            path = os.path.join(obs.tmpdir, f'dst-{x.idx}')
+            path = dest_path(obs.tmpdir, x)
             labels[path] = x.label
             if t.get('preexisting'):
                 x.prev = b'previous-content-' + str(x.idx).encode()
@@ -418,7 +416,7 @@ def run_procpool_full(spec):
             x.data = payload(spec.get('seed', 0) * 1000 + x.idx, t.get('size', 0))
             w.s3.labels[(BUCKET, x.key)] = x.label
             w.s3.objects[(BUCKET, x.key)] = x.data
-            path = os.path.join(obs.tmpdir, f'dst-{x.idx}')
+            path = dest_path(obs.tmpdir, x)
             labels[path] = x.label
             if t.get('preexisting'):
                 x.prev = b'previous-content-' + str(x.idx).encode()
